@@ -49,13 +49,17 @@ Amounts == {[txt |-> "10.00", m |-> "1000", neg |-> FALSE, s |-> 2], [txt |-> "-
             [txt |-> "5", m |-> "5", neg |-> FALSE, s |-> 0], [txt |-> "1000000", m |-> "1000000", neg |-> FALSE, s |-> 0],
             [txt |-> "12.3456", m |-> "123456", neg |-> FALSE, s |-> 4]}
 Precisions == {-1, 0, 2, 4}      \* configured precision of the commodity (-1 = none)
+\* the configured account: what is printed must read back whatever its width (the layout keeps two blanks after it)
+Accounts == {"Assets:Src", "Expenses:Education:University:Tuition:Fee", "負債:クレジットカード:オカネカード:リボ払い専用"}
 
 \* the catalogue is not vacuous: every conjunct is violated by some text and satisfied by some text
 ASSUME \A f \in AllFaults : \E p \in Payees, c \in Codes, n \in Notes : f \in Faults([payee |-> p, code |-> c, note |-> n])
 ASSUME \E p \in Payees, c \in Codes, n \in Notes : c # "~" /\ n # "" /\ Representable([payee |-> p, code |-> c, note |-> n])
 
 VARIABLE r
-Init == \E p \in Payees, c \in Codes, n \in Notes, a \in Amounts, pr \in Precisions : r = [payee |-> p, code |-> c, note |-> n, amount |-> a, precision |-> pr]
+Init == \E p \in Payees, c \in Codes, n \in Notes, a \in Amounts, pr \in Precisions, ac \in Accounts :
+          /\ (ac # "Assets:Src" => c = "~" /\ n \in {"", "memo text"} /\ p \in {"Grocery Shop", "給料 振込"})
+          /\ r = [payee |-> p, code |-> c, note |-> n, amount |-> a, precision |-> pr, account |-> ac]
 Next == UNCHANGED r
 Spec == Init /\ [][Next]_r
 =============================================================================
